@@ -57,6 +57,10 @@ func newState(t *rapid.T, root common.Hash, loc common.Location) *state.StateDB 
 	return sdb
 }
 
+// fpC12SuicideSize is a recorded finding of property C12 whose crash form this property's
+// state histories can reach (see the Suicide action).
+const fpC12SuicideSize = "C12/A/revert/acct.size/x=suicide"
+
 func inScope(a []byte, loc common.Location) bool { return wantInternal(a, loc) && !wantQi(a) }
 
 type acct struct {
@@ -77,7 +81,14 @@ var emptyCodeHash = crypto.Keccak256(nil)
 // copy of the state is committed (without deleting empty accounts) and the resulting account
 // trie is walked leaf by leaf. The result does not go through StateDB.Dump, which itself skips
 // out-of-scope accounts.
+//
+// The scan first closes the current transaction (Finalize without deleting empty accounts).
+// Copy does not carry the journal, so a copy taken in the middle of a transaction forgets
+// which objects are dirty: a self-destructed object would be written instead of deleted, and
+// its storage size counter can be driven below zero, which the account encoder refuses with
+// a panic. Every caller of Copy in the node copies at a transaction boundary.
 func scanAccounts(t *rapid.T, sdb *state.StateDB, pre preimages) map[string]acct {
+	sdb.Finalize(false)
 	cp := sdb.Copy()
 	root, err := cp.Commit(false)
 	if err != nil {
@@ -261,7 +272,18 @@ func propStateDB(t *rapid.T) {
 		},
 		"Suicide": func(t *rapid.T) {
 			u := pick(t)
-			sdb.Suicide(note("Suicide", u, ""))
+			ia := note("Suicide", u, "")
+			// Recorded finding of C12 (not of this property): Suicide zeroes the account's
+			// storage-size counter without journalling it, so reverting across it leaves the
+			// counter wrong, and a later slot deletion drives it below zero, which the account
+			// encoder refuses with a panic. While that finding is listed, histories do not
+			// revert across a Suicide of an account with a non-zero counter.
+			if len(snaps) > 0 && sdb.GetSize(ia).Sign() != 0 && stats.IsKnown(fpC12SuicideSize) {
+				stats.Excluded(fpC12SuicideSize)
+				hist = append(hist, "(live snapshots dropped: C12 finding, Suicide does not journal the size counter)")
+				snaps = nil
+			}
+			sdb.Suicide(ia)
 		},
 		"Snapshot": func(t *rapid.T) {
 			kinds["Snapshot"] = true
@@ -294,7 +316,8 @@ func propStateDB(t *rapid.T) {
 		},
 		"Scan": func(t *rapid.T) {
 			kinds["Scan"] = true
-			hist = append(hist, "Scan")
+			hist = append(hist, "Finalize(false); Scan")
+			snaps = nil // the scan is a transaction boundary (see scanAccounts)
 			checkScan(fail, "scan", scanAccounts(t, sdb, pre), loc)
 		},
 		"Commit": func(t *rapid.T) {
